@@ -41,6 +41,12 @@ def cancel_points(ctx):
                     s += [("ack", 0.0, kind, 3000)] * 4
                     s.append(("rsp", 0.999, kind, 3000))
                     out.append(s)
+    # two requests for the same command in flight, both answered within one read
+    for kind in "GZD":
+        for n_ack in (2, 4):
+            s = [("start", 0.0, kind, 3000), ("start", 0.0, kind, 5000)] + [("ack", 0.0, kind, 0)] * n_ack
+            s += [("rsp2", 0.0, kind, 0), ("tick", 0.0, kind, 0), ("tick", 0.0, kind, 0)]
+            out.append(s)
     return out
 
 
@@ -58,7 +64,7 @@ def run(ctx):
         traces.append(tr)
     hostdrive.compare(ctx, traces)
     run_generic(ctx, hostdrive.monitor_c13, ctx.scale(100, 2500),
-                weights=dict(start=4, ack=4, rsp=4, tick=3, cancel=3, badack=0.5, close=0.3, lost=0.1))
+                weights=dict(start=4, ack=4, rsp=4, rsp2=1.5, tick=3, cancel=3, badack=0.5, close=0.3, lost=0.1))
 
 
 def search(ctx):
